@@ -33,6 +33,13 @@ class Shuffle(zope.testrunner.feature.Feature):
             # we can't introspect the seed later for reporting.  This is a
             # simple emulation of what random.Random.seed does anyway.
             self.seed = int(time.time() * 256)  # use fractional seconds
+            if self.active:
+                # Layers run in subprocesses are started with the original
+                # arguments: let them shuffle with the seed reported here
+                # instead of one of their own.
+                runner.options.original_testrunner_args = (
+                    list(runner.options.original_testrunner_args) +
+                    ['--shuffle-seed', str(self.seed)])
 
     def global_setup(self):
         rng = random.Random(self.seed)
